@@ -108,6 +108,10 @@ def run_case(case, ctx):
     kind, types, seed = case[0], case[1], case[2]
     simple = kind.startswith('exh')
     toks, text = gram.render(types, Cyc(seed + len(types)), simple=simple)
+    if not simple and seed % 8 == 0:
+        # the outcome must not depend on what the long-lived parser served before
+        gram.earlier_call(ctx.P, Cyc(seed))
+        ctx.count('cases_preceded_by_an_arbitrary_earlier_call')
     r = ref_parse(toks)
     if r[0] == 'skip':
         ctx.count('skipped_reference_recursion')
